@@ -36,16 +36,7 @@ func c12(c *q.Ctx) {
 		for _, spec := range []string{"SpinLock.TryLock", "Map.Load", "State.doTxInternal", "Batch.Write", "Map.Store"} {
 			la.HeldAtCalls(ds, spec, "UtxoVM.Mutex", false, "pool admission runs under the shared state lock (block play excludes it)")
 		}
-		c.Gate(ds, "SpinLock.TryLock", q.ToCall("State.doTxInternal"), q.Opt{})
-		c.ArgIs(ds, "SpinLock.Unlock", 1, "utxo.(*SpinLock).TryLock(*)#0", 1, "exactly the keys obtained are released (a refused submission must not release keys held by others)")
-		c.ArgIs(ds, "SpinLock.TryLock", 1, "utxo.(*SpinLock).ExtractLockKeys(p0.utxo.SpLock,p1)", 1, "all keys of this transaction are requested")
-		nDefer := 0
-		for _, ci := range q.CallsIn(ds, "SpinLock.Unlock") {
-			if isDefer(ci) {
-				nDefer++
-			}
-		}
-		c.Check(nDefer == 1, "K8a", st+"(*State).doTxSync", "the key locks are released by a deferred Unlock (every exit)", "-", "")
+		keyLockProtocol(c)
 		c.Before(ds, q.ToCall("SpinLock.TryLock"), q.ToCall("Map.Load"), "pool membership is tested under the key locks")
 		c.Before(ds, q.ToCall("Map.Load"), q.ToCall("State.doTxInternal"), "membership test precedes application")
 	}
